@@ -19,7 +19,6 @@ if __name__ == "__main__":
     # C02
     mk("c02-cancel-no-notify", R + "common.py", "            if out:\n                self.set_running_or_notify_cancel()\n        if out:\n            self._me_invoke_callbacks()\n        return out\n\n    def _me_delegate_cancelled", "        if out:\n            self._me_invoke_callbacks()\n        return out\n\n    def _me_delegate_cancelled")
     mk("c02-add-done-callback-no-lock", R + "common.py", "        with self._me_lock:\n            if not self.done():\n                self._me_done_callbacks.append(fn)\n                return\n", "        if not self.done():\n            self._me_done_callbacks.append(fn)\n            return\n")
-    mk("c02-pollfuture-set-result-no-done-guard", R + "poll.py", "        with self._me_lock:\n            if self.done():\n                return\n            super(PollFuture, self).set_result(result)", "        with self._me_lock:\n            super(PollFuture, self).set_result(result)")
     # C03
     mk("c03-retry-retry-no-wake", R + "retry.py", "            new_job.stop_retry = job.stop_retry\n            self._append_job(new_job)\n\n        self._wake_thread()", "            new_job.stop_retry = job.stop_retry\n            self._append_job(new_job)\n")
     mk("c03-poll-register-no-set", R + "poll.py", "            future._clear_delegate()\n            self._poll_event.set()", "            future._clear_delegate()")
@@ -28,10 +27,33 @@ if __name__ == "__main__":
     mk("c03-throttle-done-no-set", R + "throttle.py", "        running_count.decr()\n        event.set()", "        running_count.decr()")
     # C04
     mk("c04-retry-cancel-lock-order", R + "retry.py", "    def _me_cancel(self):\n        executor = self._executor\n        return executor and executor._cancel(self)", "    def _me_cancel(self):\n        executor = self._executor\n        if not executor:\n            return executor\n        self._me_lock.release()\n        try:\n            with executor._lock:\n                with self._me_lock:\n                    return executor._cancel(self)\n        finally:\n            self._me_lock.acquire()")
-    mk("c04-cos-cancel-under-lock", R + "cancel_on_shutdown.py", "        with self._lock:\n            futures = self._futures.copy()\n\n        for f in futures:\n            cancel = f.cancel()\n            self._log.debug(\"Cancel %s: %s\", f, cancel)\n            if cancel:\n                metrics.SHUTDOWN_CANCEL.labels(executor=self._name).inc()\n", "        with self._lock:\n            futures = self._futures.copy()\n\n            for f in futures:\n                cancel = f.cancel()\n                self._log.debug(\"Cancel %s: %s\", f, cancel)\n                if cancel:\n                    metrics.SHUTDOWN_CANCEL.labels(executor=self._name).inc()\n")
-    mk("c04-gate-not-reentrant", R + "helpers.py", "        self._lock = RLock()", "        self._lock = __import__('threading').Lock()")
+    mk("c04-gate-not-reentrant", R + "helpers.py", "from threading import RLock\n", "from threading import Lock as RLock\n")
+    mk("c04-cos-shutdown-lock-then-gate", R + "cancel_on_shutdown.py", "        if not self._shutdown():\n            return\n        metrics.EXEC_INPROGRESS.labels(\n            type=\"cancel_on_shutdown\", executor=self._name\n        ).dec()\n        with self._lock:\n            futures = self._futures.copy()\n", "        with self._lock:\n            if not self._shutdown():\n                return\n            metrics.EXEC_INPROGRESS.labels(\n                type=\"cancel_on_shutdown\", executor=self._name\n            ).dec()\n            futures = self._futures.copy()\n")
     # C06
     mk("c06-submit-now-no-done-recheck", R + "retry.py", "                if job.future.done():\n                    self._log.debug(\n                        \"future done %s - not submitting to delegate\", job.future\n                    )\n                    return\n", "")
     mk("c06-retry-drops-stop-retry", R + "retry.py", "            new_job.stop_retry = job.stop_retry\n", "")
     mk("c06-throttle-cancel-true-without-removing", R + "throttle.py", "                if job.future is future:\n                    self._to_submit.remove(job)\n", "                if job.future is future:\n")
+    # C05
+    mk("c05-sleep-time-attempt-off-by-one", R + "retry.py", "self._exponent ** (attempt - 1)", "self._exponent ** attempt")
+    mk("c05-max-attempts-gt", R + "retry.py", "if attempt >= self._max_attempts:", "if attempt > self._max_attempts:")
+    mk("c05-retry-no-delay", R + "retry.py", "                monotonic() + sleep_time,", "                monotonic(),")
+    mk("c05-policy-evaluated-twice", R + "retry.py", "        (should_retry, sleep_time) = eval_policy(found_job, self._log)\n", "        (should_retry, sleep_time) = eval_policy(found_job, self._log)\n        if should_retry:\n            (should_retry, sleep_time) = eval_policy(found_job, self._log)\n")
+    mk("c05-resolve-before-policy", R + "retry.py", "        (should_retry, sleep_time) = eval_policy(found_job, self._log)\n\n        if should_retry:", "        if not delegate_future.exception():\n            copy_future(delegate_future, found_job.future)\n            self._pop_job(found_job)\n            return\n\n        (should_retry, sleep_time) = eval_policy(found_job, self._log)\n\n        if should_retry:")
+    mk("c05-get-next-job-ignores-when-order", R + "retry.py", "            elif job.when < min_job.when:\n                min_job = job", "            elif job.when > min_job.when:\n                min_job = job")
+    # C08
+    mk("c08-deregister-noop", R + "poll.py", "    def _deregister_poll(self, future):\n        with self._lock:\n            self._poll_descriptors = [\n                (f, d) for (f, d) in self._poll_descriptors if f is not future\n            ]", "    def _deregister_poll(self, future):\n        return")
+    mk("c08-snapshot-without-lock-twice", R + "poll.py", "        with self._lock:\n            descriptors = [d for (_, d) in self._poll_descriptors]\n", "        descriptors = [d for (_, d) in self._poll_descriptors + self._poll_descriptors[:1]]\n")
+    mk("c08-register-no-set", R + "poll.py", "            future._clear_delegate()\n            self._poll_event.set()", "            future._clear_delegate()")
+    mk("c08-notify-noop", R + "poll.py", "        .. versionadded:: 2.2.0\n        \"\"\"\n        self._poll_event.set()", "        .. versionadded:: 2.2.0\n        \"\"\"\n        pass")
+    mk("c08-cancel-fn-exception-means-true", R + "poll.py", "                \"Exception during cancel on %s/%s\", future, descriptor.result\n            )\n            return False", "                \"Exception during cancel on %s/%s\", future, descriptor.result\n            )\n            return True")
+    mk("c08-poll-error-fails-all-registered", R + "poll.py", "            [d.yield_exception(e) for d in descriptors]", "            [d.yield_exception(e) for (_, d) in self._poll_descriptors]")
+    mk("c08-pollfuture-init-order", R + "poll.py", "        self.add_done_callback(self._clear_executor)\n        self._delegate.add_done_callback(self._delegate_resolved)\n", "        self._delegate.add_done_callback(self._delegate_resolved)\n        self.add_done_callback(self._clear_executor)\n")
+    # C07
+    mk("c07-throttle-ge-to-gt", R + "throttle.py", "(executor._running_count.value >= throttle)", "(executor._running_count.value > throttle)")
+    mk("c07-incr-after-submit", R + "throttle.py", "            executor._running_count.incr()\n            metrics.THROTTLE_QUEUE", "            metrics.THROTTLE_QUEUE")
+    mk("c07-popleft-to-pop", R + "throttle.py", "job = executor._to_submit.popleft()", "job = executor._to_submit.pop()")
+    mk("c07-eval-throttle-no-fallback", R + "throttle.py", "        except Exception:\n            self._log.exception(\n                \"Error evaluating throttle count via %r\", self._throttle\n            )\n\n        return self._last_throttle", "        except Exception:\n            self._log.exception(\n                \"Error evaluating throttle count via %r\", self._throttle\n            )\n            return None\n\n        return self._last_throttle")
+    mk("c07-block-none-typeerror", R + "throttle.py", "            if throttle_val is None or len(self._to_submit) < throttle_val:", "            if len(self._to_submit) < throttle_val:")
+    mk("c07-room-event-not-set-on-handover", R + "throttle.py", "    if to_submit:\n        executor._room_event.set()\n", "")
+    mk("c07-done-callback-no-decr-before-set", R + "throttle.py", "        running_count.decr()\n        event.set()", "        event.set()\n        running_count.decr()")
     mk("c06-zip-no-chain-cancel", "more_executors/_impl/futures/zip.py", "            chain_cancel(self.out, future)\n", "")
